@@ -473,7 +473,9 @@ this theorem then fails to `decide`):
   loop of `searchLoop` is no longer a text fact `searchShape`: since wave 8 it is the theorem
   `c03_trans_search` below, proved about the definition regenerated from the source);
 * the word loops: `for j := 0; j < 64`, value `high<<16 | (i<<6+j)`, `Type() == 1` = array container;
-  `num>>16` / `uint16(num)`, `num>>6` / `num&63`; the cached length moves with `Bits.Add/Remove`;
+  `num>>16` / `uint16(num)` (the word split `num>>6` / `num&63` of `Bitmap.Add/Remove/Contains/add` is no longer a
+  text fact: since wave 9 it is the theorems `c03_trans_Bitmap_*` about the regenerated definitions); the cached
+  length moves with `Bits.Add/Remove`;
 * the iterators: `arrayContainerIter` starts at `-1` (`Container.iter`), `BitmapIter.Next` resets
   `j` to 0 when it moves to the next word, `Value` = `key<<16 | inner value`. -/
 theorem c03_facts :
@@ -484,7 +486,7 @@ theorem c03_facts :
     Golib.Gen.C03.allBodyEqRange = true ∧ Golib.Gen.C03.removeGuard = true ∧
     Golib.Gen.C03.addDupBeforeThreshold = true ∧
     Golib.Gen.C03.rangeInnerBound = 64 ∧ Golib.Gen.C03.rangeShape = true ∧
-    Golib.Gen.C03.splitShape = true ∧ Golib.Gen.C03.bitSplitShape = true ∧
+    Golib.Gen.C03.splitShape = true ∧
     Golib.Gen.C03.cachedLenShape = true ∧
     Golib.Gen.C03.arrIterStart = -1 ∧ Golib.Gen.C03.arrIterShape = true ∧
     Golib.Gen.C03.bitmapIterShape = true ∧ Golib.Gen.C03.iterValueShape = true := by
